@@ -372,14 +372,14 @@ static void *producer_body(void *arg)
 }
 
 /* ---- one execution ---- */
-static const char *INPUT = "ATH\nATP\n", *INPUT1 = "AT+U1?\nATP\n";
+static const char *INPUT = "ATH\nATP\n", *INPUT1 = "AT+U1?\nATP\n", *INPUT2 = "ATX\nATP\n";   /* variant 2: no hold; the first line is answered ERROR */
 
 static void run_once(void)
 {
         set_prot(1);
         memset(alias, 0, REGION);
         memset(accepted, 0, sizeof accepted); memset(full, 0, sizeof full); memset(delivered, 0, sizeof delivered);
-        out_n = 0; in_p = variant == 1 ? INPUT1 : INPUT; in_pos = 0; in_n = (int)strlen(in_p); write_attempts = 0; hold_released_ok = 0;
+        out_n = 0; in_p = variant == 1 ? INPUT1 : variant == 2 ? INPUT2 : INPUT; in_pos = 0; in_n = (int)strlen(in_p); write_attempts = 0; hold_released_ok = 0;
         npts = 0; preemptions = 0; prune_from = -1; cur = -1; lock_owner = -1; progress_epoch = 0; deadlock = 0; aborted = 0;
         nthreads = 1 + n_prod;
         /* descriptor: +H holds, +P answers, one event command per producer */
@@ -416,6 +416,34 @@ static void run_once(void)
         if (aborted && !violated) fatal("run aborted without a violation");
         if (!aborted) for (int t = 0; t < nthreads; t++) pthread_join(T[t].pt, NULL);
         set_prot(1);
+        /* the output is a sequence of whole units, each one a result code or the text of one of the producers' events */
+        if (!violated) {
+                int i = 0;
+                while (i < out_n && !violated) {
+                        int j = i + 1;
+                        while (j < out_n && out[j] != '\n') j++;
+                        int ok = out[i] == '\n' && j < out_n;
+                        if (ok) {
+                                char pay[64]; int n = j - i - 1;
+                                if (n >= (int)sizeof pay) n = (int)sizeof pay - 1;
+                                memcpy(pay, out + i + 1, (size_t)n); pay[n] = 0;
+                                ok = !strcmp(pay, "OK") || !strcmp(pay, "ERROR");
+                                for (int p = 1; p <= n_prod && !ok; p++) {
+                                        char a[32], b[32];
+                                        snprintf(a, sizeof a, "+u%d=%d", p, 10 + p);
+                                        snprintf(b, sizeof b, "+u%d=<UINT32[RO]>", p);
+                                        ok = !strcmp(pay, a) || !strcmp(pay, b);
+                                }
+                        }
+                        if (!ok) {
+                                char esc[200]; int k = 0;
+                                for (int q = 0; q < out_n && k < 190; q++) { if (out[q] == '\n') { esc[k++] = '\\'; esc[k++] = 'n'; } else esc[k++] = (out[q] >= 32 && out[q] < 127) ? out[q] : '?'; }
+                                esc[k] = 0;
+                                violation("C17: the output is not a sequence of whole units (offset %d): %s", i, esc);
+                        }
+                        i = j + 1;
+                }
+        }
         /* exactly-once delivery */
         if (!violated)
                 for (int p = 1; p <= n_prod; p++)
